@@ -396,7 +396,11 @@ func runC11(c *core.Ctx) {
 						"Subscribe() was called with ObserveOn(h1)/SubscribeOn(h2); while the effect was in flight the MonadIO was re-configured (variant %d); OnNext ran on goroutine %d (%s) instead of h2's %d", variant, g, name, e.g2)
 				}
 			case <-time.After(20 * time.Second):
-				c.Violationf("subscribe:never-delivered", map[string]any{"variant": variant}, "OnNext was not delivered after a re-configuration in flight (variant %d)", variant)
+				if quiet, _ := core.QuietNow(); quiet {
+					c.Violationf("subscribe:never-delivered", map[string]any{"variant": variant}, "OnNext was not delivered after a re-configuration in flight (variant %d)", variant)
+				} else {
+					c.Inconclusive("re-configuration probe still in progress after 20 s")
+				}
 			}
 		})
 		if pv != nil {
@@ -486,7 +490,11 @@ func runC11(c *core.Ctx) {
 				select {
 				case <-done:
 				case <-time.After(20 * time.Second):
-					c.Violationf("subscribe:never-delivered", map[string]any{"variant": variant}, "pending deliveries on a busy subscribe handler never arrived")
+					if quiet, _ := core.QuietNow(); quiet {
+						c.Violationf("subscribe:never-delivered", map[string]any{"variant": variant}, "pending deliveries on a busy subscribe handler never arrived")
+					} else {
+						c.Inconclusive("pending-delivery probe still in progress after 20 s")
+					}
 					return
 				}
 			}
